@@ -4,6 +4,7 @@ import SfVerif.Lemmas.Zipper
 import SfVerif.Lemmas.GenFnsState
 import SfVerif.Lemmas.Language2
 import SfVerif.Lemmas.Frame3
+import SfVerif.Gen.ApiStatus
 /-! C03 — the writer enforces the document grammar; a rejected call changes nothing. -/
 namespace SfVerif.Props.C03
 open SfVerif SfVerif.Gen
@@ -132,5 +133,12 @@ theorem C03_every_history_complete (w : Nat) (ops : List Op) :
   obtain ⟨fs, hfs⟩ := framesOf_some hI.stackOk
   unfold Writer.finalize Writer.abs
   cases hst : wr.st <;> simp [WState.frame, hfs]
+
+/-- the status a call is answered with reaches the caller of the api crate under the same name:
+    the api crate's status-to-error match (regenerated from api/src/write.rs) is the identity on names,
+    covers every status of the code table, and maps `Ok` to success only -/
+theorem C03_api_reports_the_same_status :
+    apiWriteStatusMap.map (·.1) = WriteResult_table.map (·.1) ∧ (∀ p ∈ apiWriteStatusMap, p.2 = p.1) := by
+  decide +kernel
 
 end SfVerif.Props.C03
